@@ -167,7 +167,7 @@ template<class T> static void chk_conv(const InV<T>& in,vf::Ctx& c){
 		glm::vec<L,T,AQ> S1(in.a[0]); for(int i=0;i<L;i++) if(!same(S1[i],in.a[0])) c.fail(tag(L,"scalar-broadcast-ctor:component-wrong"),S1[i],in.a[0]);
 		if constexpr(L==4){ glm::vec<3,T,AQ> t(A); glm::vec<4,T,AQ> e(t,in.b[0]); for(int i=0;i<3;i++) if(!same(e[i],in.a[i])) c.fail("vec4(vec3,s):component-wrong",e[i],in.a[i]); if(!same(e[3],in.b[0])) c.fail("vec4(vec3,s):w-wrong",e[3],in.b[0]);
 			glm::vec<2,T,AQ> h(A); glm::vec<4,T,AQ> g(h,glm::vec<2,T,AQ>(in.b[0],in.b[1])); if(!same(g[0],in.a[0])||!same(g[1],in.a[1])||!same(g[2],in.b[0])||!same(g[3],in.b[1])) c.fail("vec4(vec2,vec2):component-wrong",g[2],in.b[0]); }
-		if constexpr(std::is_same<T,float>::value){ glm::vec<L,int,AQ> iv(A); glm::vec<L,int,PQ> ip(mk<T,L,PQ>(in.a,0,in.poison)); for(int i=0;i<L;i++) if(iv[i]!=ip[i]) c.fail(tag(L,"float->int conversion:differs-from-pure"),iv[i],ip[i]); }
+		if constexpr(std::is_same<T,float>::value){ bool inr=true; for(int i=0;i<L;i++) if(!(std::fabs(in.a[i])<2147483000.0f)) inr=false; /* out-of-range float->int conversion is outside every documented domain */ if(inr){ glm::vec<L,int,AQ> iv(A); glm::vec<L,int,PQ> ip(mk<T,L,PQ>(in.a,0,in.poison)); for(int i=0;i<L;i++) if(iv[i]!=ip[i]) c.fail(tag(L,"float->int conversion:differs-from-pure"),iv[i],ip[i]); } }
 		if constexpr(std::is_same<T,i32>::value||std::is_same<T,u32>::value){ glm::vec<L,float,AQ> fv(A); glm::vec<L,float,PQ> fp(mk<T,L,PQ>(in.a,0,in.poison)); for(int i=0;i<L;i++) if(!same(fv[i],fp[i])) c.fail(tag(L,"int->float conversion:differs-from-pure"),fv[i],fp[i]); }
 	};
 	one(std::integral_constant<int,1>()); one(std::integral_constant<int,2>()); one(std::integral_constant<int,3>()); one(std::integral_constant<int,4>());
